@@ -206,12 +206,16 @@ pub fn alien_text(addr: &str) -> String {
 }
 
 /// Address number `j` of the custom address generator's pool (`Setup::addr_pool`). Pools >= 128 are
-/// *adjacent* pools: every odd address is its predecessor with the last character incremented, i.e.
+/// (bit 6: a pool of plain words, see below) *adjacent* pools: every odd address is its predecessor with the last character incremented, i.e.
 /// the very next string - not an address of the codec, but the generator's word is taken unchecked,
 /// and the two contracts' key spaces are neighbours in the root store.
 pub fn pool_address(api: &dyn cosmwasm_std::Api, pool: u8, instance_id: u64) -> String {
-    let k = (pool & 0x7f).max(1) as u64;
+    let k = (pool & 0x3f).max(1) as u64;
     let j = instance_id % k;
+    if pool & 64 != 0 {
+        // a generator that hands out plain words - among them the names of the keeper's own maps
+        return ["contracts", "codes", "contract_data/", "wasm", "bank"][(j % 5) as usize].to_string();
+    }
     let base = |j: u64| api.addr_humanize(&classic_canonical(1, j)).map(|a| a.to_string()).unwrap_or_default();
     if pool >= 128 && j % 2 == 1 {
         let mut s = base(j - 1).into_bytes();
